@@ -220,6 +220,20 @@ def judge(acts, args, res, layout_outputs):
                 got_fxt.append((r["trade date"], q, Fraction(r["exchange rate"])))
             continue
         got_trades.append((r["security"], r["trade date"], r["settlement date"], r["action"], q, p, c, r["currency"], af))
+    if not args.get("no_sort"):
+        # documented order of the output: settlement date, then time of the trade, then currency purchases before
+        # currency sales (so that the cash is there before it is spent), then sheet order
+        last = {}
+        prev_sd = None
+        for r in rows:
+            if prev_sd is not None and r["settlement date"] < prev_sd:
+                return {"what": "output rows are not ordered by settlement date", "row": r}
+            prev_sd = r["settlement date"]
+            if r["security"] == "USD.FX":
+                k = (r["settlement date"], r["trade date"])
+                if r["action"] == "Buy" and last.get(k) == "Sell":
+                    return {"what": "a currency purchase is listed after a currency sale of the same day (cash spent before it arrives)", "row": r}
+                last[k] = r["action"]
     if sorted(got_trades) != sorted(trades):
         missing = [t for t in trades if t not in got_trades]
         extra = [t for t in got_trades if t not in trades]
